@@ -174,8 +174,17 @@ type runCfg struct {
 
 func runHonest(t *rapid.T, c runCfg, extra func(w *chainsim.World, m *chainsim.Monitor)) {
 	w := chainsim.DrawWorld(t, c.opts)
+	var adv *chainsim.Adversary
+	if len(w.Byz) > 0 {
+		adv = w.AddAdversary()
+	}
 	m := chainsim.NewMonitor(w, nil)
-	m.Report = reporterFor(t, c.prop, w, func() string { return tipsSummary(w) })
+	m.Report = reporterFor(t, c.prop, w, func() string {
+		if adv != nil {
+			return tipsSummary(w) + adv.String()
+		}
+		return tipsSummary(w)
+	})
 	installPanicReporter(w, m)
 	if !w.QuorumsIntersectInHonest() {
 		m.OutsideTheorem = true
@@ -227,7 +236,7 @@ func TestC01(t *testing.T) {
 		simkit.AddRun()
 		defer simkit.Watch(300*time.Second, "C01 run")()
 		simkit.Guard(func() {
-			runHonest(t, runCfg{prop: "C01", opts: chainsim.WorldOpts{Nodes: [2]int{2, 5}, Validators: [2]int{4, 8}, ValidatorChanges: true, NetFaults: true, RPCFaults: true, SmallCache: true, StandardThresholds: true},
+			runHonest(t, runCfg{prop: "C01", opts: chainsim.WorldOpts{Nodes: [2]int{2, 5}, Validators: [2]int{4, 9}, Byzantine: true, ValidatorChanges: true, NetFaults: true, RPCFaults: true, SmallCache: true, StandardThresholds: true},
 				faults: chainsim.FaultPlan{Partitions: true, Crashes: true, Skew: true}, blocks: [2]int{15, 110}}, nil)
 		})
 	})
@@ -238,7 +247,7 @@ func TestC15(t *testing.T) {
 		simkit.AddRun()
 		defer simkit.Watch(300*time.Second, "C15 run")()
 		simkit.Guard(func() {
-			runHonest(t, runCfg{prop: "C15", opts: chainsim.WorldOpts{Nodes: [2]int{2, 5}, Validators: [2]int{4, 8}, ValidatorChanges: true, NetFaults: true, RPCFaults: true, SmallCache: true},
+			runHonest(t, runCfg{prop: "C15", opts: chainsim.WorldOpts{Nodes: [2]int{2, 5}, Validators: [2]int{4, 9}, Byzantine: true, ValidatorChanges: true, NetFaults: true, RPCFaults: true, SmallCache: true},
 				faults: chainsim.FaultPlan{Partitions: true, Crashes: true, Skew: true}, blocks: [2]int{10, 90}}, nil)
 		})
 	})
